@@ -24,9 +24,18 @@
      c16_denotational    the loop computes the denotation of the tag AST: "processed as if it had
                          been written with the replacement text"
      c16_terminates*     never a hang after the repair; c16_diverges_refuted: the unrepaired loop
-                         does hang on  a: "${a}". *)
+                         does hang on  a: "${a}".
+     c16_history_*       "the configured value" is the value at the time of the resolution: on one configuration
+                         (Model/ConfigStore.v: the store behind Configure.Get / Configure.Set) driven through any
+                         history of resolutions, reads and Sets, every resolution is the ${} stage over the store as
+                         the Sets before it left it - nothing an earlier resolution or read saw is kept
+     c16_set_then_*      after Configure.Set(k, v) a placeholder on k (in any letter case), on a key below k, or on
+                         a key above k resolves to what was set, not to the default and not to an older value;
+                         keys beside k are not affected.  All theorems above are stated for EVERY configuration
+                         function and hence hold for  vget s  of every store s. *)
 From Coq Require Import List NArith ZArith Bool Lia.
 From IocVerif Require Import Model.Strconv Model.Placeholder Proofs.StrconvProofs Proofs.PlaceholderProofs.
+From IocVerif Require Import Model.ConfigStore Proofs.ConfigStoreProofs.
 Import ListNotations.
 
 Definition dollar_not_lbrace : N.eqb b_dollar b_lbrace = false := eq_refl.
@@ -203,7 +212,90 @@ Qed.
 Example c16_circular_repaired : forall fx, quote_stage fx circ_cfg (Some repo_budget) 0 circ_tag = Exhausted.
 Proof. intros fx. destruct fx; vm_compute; reflexivity. Qed.
 
+(* ---- one configuration over time: resolutions, reads and Configure.Set in any order ------------------ *)
+
+(* In every history on one store the i-th step, when it is a resolution of tag text t, yields exactly the ${} stage
+   on t over the configuration function  vget (store after the Sets among the first i steps) : the outcome depends on
+   the Sets made so far and on nothing else - in particular not on what earlier resolutions or reads returned. *)
+Theorem c16_history_resolve : forall fx budget fuel steps s i t,
+  nth_error steps i = Some (HResolve t) ->
+  nth_error (hrun fx budget fuel s steps) i =
+  Some (RResolve (quote_stage fx (vget (hstate s (firstn i steps))) budget fuel t))
+  /\ hstate s (firstn i steps) = hstate s (sets_only (firstn i steps)).
+Proof.
+  intros fx budget fuel steps s i t H. split; [apply hrun_resolve, H|symmetry; apply hstate_sets_only].
+Qed.
+
+Theorem c16_history_get : forall fx budget fuel steps s i k,
+  nth_error steps i = Some (HGet k) ->
+  nth_error (hrun fx budget fuel s steps) i = Some (RGet (vget (hstate s (firstn i steps)) k)).
+Proof. exact hrun_get. Qed.
+
+(* ... and every one of them terminates (repaired loop) *)
+Theorem c16_history_terminates : forall fx b fuel steps s o,
+  In (RResolve o) (hrun fx (Some b) fuel s steps) -> o <> OutOfFuel.
+Proof.
+  intros fx b fuel. induction steps as [|st r IH]; intros s o H; [contradiction|].
+  cbn [hrun] in H. destruct st as [t|k v|k]; cbn [hstep_run] in H; destruct H as [H|H]; try discriminate; eauto.
+  injection H as <-. exact (proj1 (c16_terminates fx (vget s) b fuel t)).
+Qed.
+
+(* Configure.Set(k, v), then a placeholder on the same key - spelled in any letter case, with or without a
+   default: the value that was set (a map with its keys in lower case), whatever the store held before *)
+Theorem c16_set_then_resolve : forall fx s k k' v rest,
+  lower k = lower k' -> byte_index b_colon k' = None -> rest = [] \/ (exists d, rest = b_colon :: d) ->
+  absent (lower_keys v) = false ->
+  vget (vset s k v) k' = lower_keys v
+  /\ resolve fx (vget (vset s k v)) (k' ++ rest) = format_cfg fx (lower_keys v).
+Proof.
+  intros fx s k k' v rest Hk Hc Hr Ha.
+  assert (Hg : vget (vset s k v) k' = lower_keys v).
+  { apply vget_vset_same; [exact Hk|]. intros E. rewrite E in Ha. discriminate. }
+  split; [exact Hg|]. rewrite (c16_resolve_present fx _ k' rest Hc Hr); rewrite Hg; [reflexivity|exact Ha].
+Qed.
+
+(* Configure.Set(k, {...}), then a placeholder on a key BELOW k: the entry of the map that was set *)
+Theorem c16_set_then_resolve_child : forall fx s k c v rest,
+  byte_index b_colon (k ++ b_dot :: c) = None -> rest = [] \/ (exists d, rest = b_colon :: d) ->
+  absent (search_map (key_path c) (lower_keys v)) = false ->
+  resolve fx (vget (vset s k v)) ((k ++ b_dot :: c) ++ rest) = format_cfg fx (search_map (key_path c) (lower_keys v)).
+Proof.
+  intros fx s k c v rest Hc Hr Ha.
+  assert (Hg : vget (vset s k v) (k ++ b_dot :: c) = search_map (key_path c) (lower_keys v)).
+  { apply vget_vset_child. intros E. rewrite E in Ha. discriminate. }
+  rewrite (c16_resolve_present fx _ _ rest Hc Hr); rewrite Hg; [reflexivity|exact Ha].
+Qed.
+
+(* Configure.Set(p.c, v), then a read of the key p ABOVE it: the override's map at p, which now holds c;
+   keys whose first segment differs from k's do not see the Set at all *)
+Theorem c16_set_then_get_parent_and_frame : forall s p c v,
+  vget (vset s (p ++ b_dot :: c) v) p =
+    VMap (deep_set (key_path c) (lower_keys v) (sub_at (key_path p) (st_override s)))
+  /\ forall k k', beqb (hd [] (key_path k)) (hd [] (key_path k')) = false -> vget (vset s k v) k' = vget s k'.
+Proof. intros s p c v. split; [apply vget_vset_parent|intros k k' H; apply vget_vset_other, H]. Qed.
+
 (* ---- non-vacuity --------------------------------------------------------------------- *)
+
+(* server.* absent, ${server.port:8080} -> default; Set("server", {Host: gateway, Port: 9090}); the same placeholder,
+   also spelled ${Server.Port:8080}, now gives 9090; Set("SERVER.PORT", 7) then wins; log.level is not affected *)
+Definition exh_store : vstore :=
+  mkStore [] [([108;111;103]%N, VMap [([108;101;118;101;108]%N, VStr [105;110;102;111]%N)])].
+Definition exh_tag1 : bytes := [36;123;115;101;114;118;101;114;46;112;111;114;116;58;56;48;56;48;125]%N.  (* ${server.port:8080} *)
+Definition exh_tag2 : bytes := [36;123;83;101;114;118;101;114;46;80;111;114;116;58;56;48;56;48;125]%N.   (* ${Server.Port:8080} *)
+Definition exh_tag3 : bytes := [36;123;108;111;103;46;108;101;118;101;108;125]%N.                        (* ${log.level} *)
+Definition exh_steps : list hstep :=
+  [HResolve exh_tag1;
+   HSet [115;101;114;118;101;114]%N (VMap [([72;111;115;116]%N, VStr [103;119]%N); ([80;111;114;116]%N, VInt 9090)]);
+   HResolve exh_tag1; HResolve exh_tag2; HGet [115;101;114;118;101;114]%N;
+   HSet [83;69;82;86;69;82;46;80;79;82;84]%N (VInt 7);
+   HResolve exh_tag1; HResolve exh_tag3].
+
+Example c16_history_example : forall fx,
+  hrun fx (Some repo_budget) 0 exh_store exh_steps =
+  [RResolve (Done [56;48;56;48]%N); RSet; RResolve (Done [57;48;57;48]%N); RResolve (Done [57;48;57;48]%N);
+   RGet (VMap [([104;111;115;116]%N, VStr [103;119]%N); ([112;111;114;116]%N, VInt 9090)]);
+   RSet; RResolve (Done [55]%N); RResolve (Done [105;110;102;111]%N)].
+Proof. intros fx. destruct fx; vm_compute; reflexivity. Qed.
 
 (* text  p${a.${env:dev}.host}q${port:8080}${port:8080}  with  a.dev.host = "h1", env and port not
    configured: nested in the key, default used, repetition *)
